@@ -108,7 +108,12 @@ func runBM25History(r *rand.Rand, nops int, allowReadd bool, t *Trace) *Case {
 		})
 		t.Stat("bm25.dump")
 	}
+	lastText := map[uint32]string{}
+	var heldRun func() // a search builder kept across the history (a builder holds a query, not a snapshot)
 	for step := 0; step < nops; step++ {
+		if heldRun != nil && r.Intn(5) == 0 {
+			heldRun()
+		}
 		if step == nops-1 || r.Intn(6) == 0 {
 			dump()
 		}
@@ -133,6 +138,16 @@ func runBM25History(r *rand.Rand, nops int, allowReadd bool, t *Trace) *Case {
 				nextID++
 			}
 			text := bmText(r)
+			if prev, ok := lastText[id]; ok && r.Intn(3) == 0 {
+				// the same text again (or one that differs only in case): replacing or re-adding a document
+				// with the text it had is an add like any other
+				text = prev
+				if r.Intn(2) == 0 {
+					text = strings.ToUpper(prev)
+				}
+				t.Stat("bm25.add_same_text_again")
+			}
+			lastText[id] = text
 			toks := in.toks(text)
 			if err := ix.Add(id, text); err != nil {
 				panic(err)
@@ -224,32 +239,6 @@ func runBM25History(r *rand.Rand, nops int, allowReadd bool, t *Trace) *Case {
 			if r.Intn(10) < 2 {
 				cutoff = r.Intn(3)
 			}
-			st := comet.VerifBM25Snapshot(ix)
-			// oracle table for math.Log: every (N, df) the query can touch
-			lnT := map[uint64]uint64{}
-			N := float64(st.NumDocs)
-			addLn := func(text string) {
-				for _, tk := range specTokens(text) {
-					if p, ok := st.Postings[tk]; ok {
-						df := float64(len(p))
-						x := (N-df+0.5)/(df+0.5) + 1.0
-						lnT[math.Float64bits(x)] = math.Float64bits(math.Log(x))
-					}
-				}
-			}
-			qtoks := make([][]int, nq)
-			for i, q := range qs {
-				qtoks[i] = in.toks(q)
-				addLn(q)
-			}
-			nodeq := [][]int{}
-			for _, nid := range nodes {
-				if toks, ok := st.DocTokens[nid]; ok {
-					joined := strings.Join(toks, " ")
-					nodeq = append(nodeq, in.toks(joined))
-					addLn(joined)
-				}
-			}
 			s := ix.NewSearch().WithScoreAggregation(aggs[aggz])
 			if r.Intn(8) == 0 { // builder default: k = 10
 				k = 10
@@ -279,40 +268,76 @@ func runBM25History(r *rand.Rand, nops int, allowReadd bool, t *Trace) *Case {
 				}
 				s = s.WithDocumentIDs(docids...)
 			}
-			var res []comet.TextResult
-			var e error
-			if r.Intn(5) == 0 { // the builder is executed twice: the second answer is the one that is judged
-				catchPanic(func() { s.Execute() })
-				t.Stat("bm25.search_builder_reused")
+			// everything that depends on the index as it is NOW (statistics for the ln oracle, the texts of
+			// the named nodes, the answer) is computed when the builder is executed -- now, and again
+			// later in the history if the builder is kept
+			run := func(first bool) (int, []comet.TextResult) {
+				var res []comet.TextResult
+				st := comet.VerifBM25Snapshot(ix)
+				// oracle table for math.Log: every (N, df) the query can touch
+				lnT := map[uint64]uint64{}
+				N := float64(st.NumDocs)
+				addLn := func(text string) {
+					for _, tk := range specTokens(text) {
+						if p, ok := st.Postings[tk]; ok {
+							df := float64(len(p))
+							x := (N-df+0.5)/(df+0.5) + 1.0
+							lnT[math.Float64bits(x)] = math.Float64bits(math.Log(x))
+						}
+					}
+				}
+				qtoks := make([][]int, nq)
+				for i, q := range qs {
+					qtoks[i] = in.toks(q)
+					addLn(q)
+				}
+				nodeq := [][]int{}
+				for _, nid := range nodes {
+					if toks, ok := st.DocTokens[nid]; ok {
+						joined := strings.Join(toks, " ")
+						nodeq = append(nodeq, in.toks(joined))
+						addLn(joined)
+					}
+				}
+				var e error
+				if first && r.Intn(5) == 0 { // the builder is executed twice: the second answer is the one that is judged
+					catchPanic(func() { s.Execute() })
+					t.Stat("bm25.search_builder_reused")
+				}
+				pan := catchPanic(func() { res, e = s.Execute() })
+				code := errCode(e)
+				if pan {
+					code = 12
+				}
+				ops = append(ops, func(c *Case) {
+					c.N(4).N(len(qtoks))
+					for _, q := range qtoks {
+						c.Ints(q)
+					}
+					c.U32s(nodes).N(len(nodeq))
+					for _, q := range nodeq {
+						c.Ints(q)
+					}
+					c.U32s(docids).N(k).N(aggz).N(cutoff).N(len(lnT))
+					keys := make([]uint64, 0, len(lnT))
+					for x := range lnT {
+						keys = append(keys, x)
+					}
+					sort.Slice(keys, func(i, j int) bool { return keys[i] < keys[j] })
+					for _, x := range keys {
+						c.U(x).U(lnT[x])
+					}
+					c.N(code).N(len(res))
+					for _, x := range res {
+						c.U(uint64(x.Id)).F32(x.Score)
+					}
+				})
+				return code, res
 			}
-			pan := catchPanic(func() { res, e = s.Execute() })
-			code := errCode(e)
-			if pan {
-				code = 12
+			code, res := run(true)
+			if r.Intn(6) == 0 {
+				heldRun = func() { run(false); t.Stat("bm25.search_builder_kept_across_history") }
 			}
-			ops = append(ops, func(c *Case) {
-				c.N(4).N(len(qtoks))
-				for _, q := range qtoks {
-					c.Ints(q)
-				}
-				c.U32s(nodes).N(len(nodeq))
-				for _, q := range nodeq {
-					c.Ints(q)
-				}
-				c.U32s(docids).N(k).N(aggz).N(cutoff).N(len(lnT))
-				keys := make([]uint64, 0, len(lnT))
-				for x := range lnT {
-					keys = append(keys, x)
-				}
-				sort.Slice(keys, func(i, j int) bool { return keys[i] < keys[j] })
-				for _, x := range keys {
-					c.U(x).U(lnT[x])
-				}
-				c.N(code).N(len(res))
-				for _, x := range res {
-					c.U(uint64(x.Id)).F32(x.Score)
-				}
-			})
 			t.Stat("bm25.search")
 			if code != 0 {
 				t.Stat("bm25.search_error")
@@ -340,7 +365,7 @@ func genC03(r *rand.Rand, t *Trace, thorough bool) {
 		n = 4000
 	}
 	for it := 0; it < n; it++ {
-		c := runBM25History(r, 6+r.Intn(40), false, t)
+		c := runBM25History(r, 6+r.Intn(40), it%3 == 2, t) // every third history also re-adds removed ids
 		t.Emit(c)
 	}
 }
